@@ -174,7 +174,9 @@ def run_scenario(disps, body, spawned, cancel_at, outer_state=True):
         try:
             await t
             obs["task_end"] = "finished"
+            obs["end_time"] = loop.time()
         except asyncio.CancelledError:
+            obs["end_time"] = loop.time()
             obs["task_end"] = "cancelled"
             obs["task_end_time"] = loop.time()
         except BaseException as e:  # noqa
@@ -220,7 +222,7 @@ def scenarios(level=1):
                 for cancel_at in cancels:
                     if body != "sleep" and cancel_at is not None and cancel_at > 3.0:
                         continue
-                    if level < 2 and len(ds) > 1 and spawned and cancel_at not in (None, 1.7):
+                    if level < 2 and len(ds) > 1 and spawned and cancel_at not in (None, 1.2, 1.7):
                         continue
                     yield dict(disps=ds, body=body, spawned=spawned, cancel_at=cancel_at)
 
@@ -257,7 +259,8 @@ def reuse_problems():
 
     async def attempt(kind, is_async, first):
         d = Counting(fail_first=(first == "enter-failed"))
-        sc = ctx.scope("reused", A(v=2), disposables=[d]) if is_async and first != "plain" else ctx.scope("reused", A(v=2))
+        sc = ctx.scope("reused", A(v=2), disposables=[d]) if is_async and first not in ("plain", "left-other-protocol") \
+            else ctx.scope("reused", A(v=2))
         refused = []
 
         async def enter_again():
@@ -284,8 +287,9 @@ def reuse_problems():
                     if any(a is not b for a, b in zip(inside, context_now())):
                         out.append(f"{kind}: re-entering the active scope object from inside its block changed the context of the block")
         else:
+            first_async = is_async if first != "left-other-protocol" else not is_async
             try:
-                if is_async:
+                if first_async:
                     async with sc:
                         pass
                 else:
@@ -300,7 +304,7 @@ def reuse_problems():
 
     async def main():
         for is_async in (True, False):
-            for first in ("plain", "left", "enter-failed", "active"):
+            for first in ("plain", "left", "enter-failed", "active", "left-other-protocol"):
                 if not is_async and first in ("left", "enter-failed"):
                     continue
                 kind = f"{'async' if is_async else 'sync'} scope object, first use {first}"
@@ -314,7 +318,7 @@ def reuse_problems():
                             out.append(f"{kind}: after the refused second entering the surrounding code sees another {nme}")
                     if ctx.state(A).v != 1:
                         out.append(f"{kind}: after the refused second entering ctx.state(A).v is {ctx.state(A).v}, expected 1")
-                    if is_async and first != "plain" and (d.entered, d.exited) not in ((1, 1), (1, 0) if first == "enter-failed" else (1, 1)):
+                    if is_async and first not in ("plain", "left-other-protocol") and (d.entered, d.exited) not in ((1, 1), (1, 0) if first == "enter-failed" else (1, 1)):
                         out.append(f"{kind}: the disposable was entered {d.entered}x and exited {d.exited}x")
                     released = asyncio.Event()
 
